@@ -263,7 +263,54 @@ def op_text(op):
     return op[3]
 
 
+class fresh_decode:
+    """`filters.decode` replaced by a new `Decode()` for the duration of one check (generated code reaches it as
+    `filters.decode.<enc>` at call time), so that a verdict on a history does not depend on what earlier checks of this
+    process left behind in the implementation - and a recorded case replays from a fresh process"""
+
+    def __init__(self, F):
+        self.F = F
+
+    def __enter__(self):
+        self.old = self.F.decode
+        try:
+            self.F.decode = self.F.Decode()
+        except Exception:
+            pass
+        return self
+
+    def __exit__(self, *a):
+        self.F.decode = self.old
+        return False
+
+
+def reproduces_fresh(case):
+    """does the recorded case fail when replayed in a fresh interpreter? (implementation side only)"""
+    import subprocess
+    import sys
+    import tempfile
+    d = tempfile.mkdtemp(prefix="c10case_")
+    try:
+        f = os.path.join(d, "case.json")
+        with open(f, "w") as fh:
+            json.dump({"property": "C10", "case": case}, fh)
+        env = dict(os.environ, C10_REPLAY_NO_MODEL="1")
+        p = subprocess.run([sys.executable, os.path.join(os.path.dirname(os.path.dirname(os.path.abspath(__file__))), "run.py"),
+                            "C10", "--replay", f], env=env, stdout=subprocess.PIPE, stderr=subprocess.STDOUT, timeout=120)
+        return p.returncode == 1
+    except Exception:
+        return True         # cannot tell: keep the case
+    finally:
+        import shutil
+        shutil.rmtree(d, ignore_errors=True)
+
+
 def run_ops_impl(F, ops):
+    with fresh_decode(F):
+        return run_ops_impl_(F, ops)
+
+
+def run_ops_impl_(F, ops):
     """execute a history on the real `filters.decode`; one entry per call: the str returned, or 'raises <Class>'"""
     held = {}
     objs = {}
@@ -828,12 +875,18 @@ def check_decode_ops(F, ops):
     want = run_ops_ref(ops)
     if got != want:
         k = next(i for i, (a, b) in enumerate(zip(got, want)) if a != b)
-        return "call #%d returned %r, the charset of its own lookup gives %r" % (k, got[k], want[k])
+        return "call #%d returned %r; its own charset and its argument as of that call give %r" % (k, got[k], want[k])
     return None
 
 
 def check_decode_nested(e1, e2, hx1, hx2):
     """`${fragment()}` under default_filters=['decode.<e1>'] while fragment() renders a template using decode.<e2>"""
+    from mako import filters as F_
+    with fresh_decode(F_):
+        return check_decode_nested_(e1, e2, hx1, hx2)
+
+
+def check_decode_nested_(e1, e2, hx1, hx2):
     from mako.template import Template
     b1, b2 = bytes.fromhex(hx1), bytes.fromhex(hx2)
     try:
@@ -863,6 +916,11 @@ def check_decode_nested(e1, e2, hx1, hx2):
 
 def check_decode_threads(F, e1, e2, hx):
     """thread 1 looks decode.<e1> up, thread 2 looks up and calls decode.<e2>, then thread 1 calls its closure"""
+    with fresh_decode(F):
+        return check_decode_threads_(F, e1, e2, hx)
+
+
+def check_decode_threads_(F, e1, e2, hx):
     import threading
     b = bytes.fromhex(hx)
     ev1, ev2 = threading.Event(), threading.Event()
@@ -909,9 +967,15 @@ def oracle_decode_state(ctx, rep, F):
         st["cases"] += 1
         bad = check_decode_ops(F, ops)
         if bad:
+            if rep.seen.get("decode-history", 0) >= 2:
+                rep.seen["decode-history"] += 1
+                continue
             small = shrink_ops(ops, lambda sub: check_decode_ops(F, sub) is not None)
-            rep.report("decode-uses-other-charset", {"input": json.dumps(small), "ops": small, "filter": "decode", "via": "sequence"},
-                       check_decode_ops(F, small) or bad, "oracle.decode.sequences")
+            case = {"input": json.dumps(small), "ops": small, "filter": "decode", "via": "sequence"}
+            if not reproduces_fresh(case):
+                small = ops
+                case = {"input": json.dumps(ops), "ops": ops, "filter": "decode", "via": "sequence"}
+            rep.report("decode-history", case, check_decode_ops(F, small) or bad, "oracle.decode.sequences")
     st = ctx.stream("oracle.decode.nested_render", "oracle")
     pairs = [(e1, e2) for e1 in ORACLE_ENCS[:6] for e2 in ORACLE_ENCS[:6]]
     for e1, e2 in pairs:
@@ -919,7 +983,7 @@ def oracle_decode_state(ctx, rep, F):
             st["cases"] += 1
             bad = check_decode_nested(e1, e2, hx1, hx2)
             if bad:
-                rep.report("decode-uses-other-charset", {"input": "%s/%s" % (e1, e2), "filter": "decode", "via": "nested-render",
+                rep.report("decode-history", {"input": "%s/%s" % (e1, e2), "filter": "decode", "via": "nested-render",
                                                           "e1": e1, "e2": e2, "bytes1": hx1, "bytes2": hx2}, bad,
                            "oracle.decode.nested_render")
     st = ctx.stream("oracle.decode.threads", "oracle")
@@ -927,7 +991,7 @@ def oracle_decode_state(ctx, rep, F):
         st["cases"] += 1
         bad = check_decode_threads(F, e1, e2, "c3a9")
         if bad:
-            rep.report("decode-uses-other-charset", {"input": "%s/%s" % (e1, e2), "filter": "decode", "via": "threads",
+            rep.report("decode-history", {"input": "%s/%s" % (e1, e2), "filter": "decode", "via": "threads",
                                                       "e1": e1, "e2": e2, "bytes1": "c3a9"}, bad, "oracle.decode.threads")
 
 
@@ -948,6 +1012,11 @@ def decode_way(F, way):
 def check_decode_objects(F, way, seq):
     """`seq`: value names, or ["mut", text] = the one mutable object of this run printing `text` now.  Each must come
     out as str(x) taken at the time of the call.  -> None | (site, detail)"""
+    with fresh_decode(F):
+        return check_decode_objects_(F, way, seq)
+
+
+def check_decode_objects_(F, way, seq):
     try:
         f = decode_way(F, way)
     except Exception as e:
@@ -989,8 +1058,13 @@ def oracle_decode_objects(ctx, rep, F):
                 site = bad[0]
                 small = ddmin(seq, lambda sub: bool(sub) and (check_decode_objects(F, way, sub) or ("", ""))[0] == site, 200)
                 b2 = check_decode_objects(F, way, small) or bad
-                rep.report(b2[0], {"input": json.dumps(small), "values": small, "way": way, "filter": "decode", "via": "objects"},
-                           b2[1], "oracle.decode.objects")
+                if rep.seen.get(b2[0], 0) < 2:
+                    case = {"input": json.dumps(small), "values": small, "way": way, "filter": "decode", "via": "objects"}
+                    if not reproduces_fresh(case):      # the verdict depended on state outside this run of calls
+                        case = {"input": json.dumps(seq), "values": seq, "way": way, "filter": "decode", "via": "objects"}
+                    rep.report(b2[0], case, b2[1], "oracle.decode.objects")
+                else:
+                    rep.seen[b2[0]] += 1
             ctx.branch("decode:objects:" + way)
     # buffer objects whose str() carries an address: compared on the same object
     for way in DECODE_WAYS:
@@ -1255,6 +1329,8 @@ def replay(ctx, data):
     name = case.get("filter") or case.get("op") or "x"
     drv = None
     try:
+        if os.environ.get("C10_REPLAY_NO_MODEL"):
+            raise RuntimeError("skipped (C10_REPLAY_NO_MODEL)")
         drv = ctx.driver()
     except Exception as e:   # the model side is optional for a replay
         print("model not available:", e)
